@@ -68,6 +68,8 @@ def run_task(task):
         extra = {"PYTHONHASHSEED": str(env_spec["hashseed"]), "VERIF_CHAIN_LOG": log}
         if env_spec.get("delays"):
             extra["VERIF_CHAIN_DELAYS"] = json.dumps(env_spec["delays"])
+        if env_spec.get("optimize"):
+            extra["PYTHONOPTIMIZE"] = "1"  # assert statements are not executed
         if env_spec.get("clock_skew"):
             extra["VERIF_CLOCK_SKEW"] = json.dumps({"seed": env_spec["clock_skew"], "max": 0.02})
         env = cli_env(extra)
@@ -219,6 +221,7 @@ def environments(chains, quick):
     envs = [{"name": "reference", "hashseed": 0}]
     envs.append({"name": "hashseed 12345", "hashseed": 12345, "nice": True})
     envs.append({"name": "hashseed random, one core", "hashseed": "random", "one_core": True})
+    envs.append({"name": "assertions off (python -O)", "hashseed": 0, "optimize": True})
     if chains > 1:
         # reverse the completion order: the lower the chain number the later it finishes
         envs.append({"name": "reversed completion", "hashseed": 1,
